@@ -28,7 +28,7 @@ CHECKS = {
     "C03": dict(
         level="model_checking",
         rule="parent scope(2) x declared child kinds(3 sets per scope) x generateSelector(2) x 2 (thorough: 3) slots each ranging over role(9 composite / 8 decorator) x namespace(2) x kind(declared + one undeclared); "
-             "one real sync per case; non-trivial = at least one object present in the cluster; every fifth non-trivial case is also run after a second controller on the same parent and child resources was started and stopped again (the informers this controller lists from must survive); role 'orphan in the cache, adopted by another parent on the server' (the adoption is refused; the object must never be shown to the hook); selector kinds: explicit matchLabels, generated, and negative-only (tier NotIn [canary]: selects objects without labels); decorator: a second decorated parent kind with a namesake parent whose attachments are its own; decorator roles with the controller reference not last / an explicit non-controller owner first",
+             "one real sync per case; non-trivial = at least one object present in the cluster; every fifth non-trivial case is also run after a second controller on the same parent and child resources was started and stopped again (the informers this controller lists from must survive); role 'orphan in the cache, adopted by another parent on the server' (the adoption is refused; the object must never be shown to the hook); selector kinds: explicit matchLabels, generated, and negative-only (tier NotIn [canary]: selects objects without labels); decorator: a second decorated parent kind with a namesake parent whose attachments are its own; decorator roles with the controller reference not last / an explicit non-controller owner first; namespaced parents also declare the set [leafs, cwidgets] (a cluster-scoped child kind)",
         units=[
             dict(pkg=COMPOSITE, test="TestVerifC03", shards=dict(quick=8, thorough=16), budget=dict(quick=300, thorough=3000)),
             dict(pkg=DECORATOR, test="TestVerifC03", shards=dict(quick=4, thorough=16), budget=dict(quick=300, thorough=3000)),
@@ -38,7 +38,7 @@ CHECKS = {
     "C16": dict(
         level="model_checking",
         rule="target (status subresource(2) x labels k1,k2 (6) x annotations (6) x status(2) x foreign finalizer(2)) x response (label map over k1,k3[,k2 thorough] in {unnamed,value,null} x annotation map likewise x status {null,equal,different}) x mode {no finalize hook, finalize hook+live, finalizing, finalizing+finalized} x cache fresh/stale; "
-             "plus selector table: label selector kind(4) x annotation selector kind(4) x matches(2x2) x leftover finalizer(2) x finalize hook(2); every case is distinct and runs one real sync; value alphabet includes the empty string (for the key the target lacks); bystander attachments of a previous incarnation of the target and of a namesake in another API group",
+             "plus selector table: label selector kind(4) x annotation selector kind(4) x matches(2x2) x leftover finalizer(2) x finalize hook(2); every case is distinct and runs one real sync; value alphabet includes the empty string (for the key the target lacks); bystander attachments of a previous incarnation of the target and of a namesake in another API group; a marked look-alike carrying the target's UID lives in another namespace",
         units=[
             dict(pkg=DECORATOR, test="TestVerifC16", shards=dict(quick=16, thorough=16), budget=dict(quick=600, thorough=3000)),
         ],
@@ -47,7 +47,7 @@ CHECKS = {
     "C14": dict(
         level="model_checking",
         rule="configuration (parent scope x generateSelector x ignoreStatusChanges x controller selector) x every event shape: parent add/delete/tombstone/6 update kinds/resync for matching, non-matching and finalizer-carrying parents; child add/update/delete/tombstone/resync for 15 roles (incl. a controller reference naming the parent kind in another API version); parents incl. one that carries the finalizer plus a garbage-collector finalizer while being deleted; with and without a finalize hook; related-object events (8); "
-             "each case = fresh world with the real Start()-installed handlers, one delivered event, queue compared with the decision table; in the related-object cases the customize hook answers 503 for two other parents that were never synced; a parent with a negative-only selector and an orphan without labels",
+             "each case = fresh world with the real Start()-installed handlers, one delivered event, queue compared with the decision table; in the related-object cases the customize hook answers 503 for two other parents that were never synced; a parent with a negative-only selector and an orphan without labels; cluster-scoped parents select their related object by name only (any namespace)",
         units=[
             dict(pkg=COMPOSITE, test="TestVerifC14", shards=dict(quick=4, thorough=4), budget=dict(quick=300, thorough=600)),
             dict(pkg=DECORATOR, test="TestVerifC14", shards=dict(quick=4, thorough=4), budget=dict(quick=300, thorough=600)),
@@ -57,7 +57,7 @@ CHECKS = {
     "C11": dict(
         level="model_checking",
         rule="hook status(6) x live-vs-cached parent(5: same, spec edited, labels edited, recreated with new UID, gone) x existing status(3) x real conflicts caused between GET and PUT(0,1,2,4) x injected fault on the status path(5) x child reconciliation ok/fails; "
-             "plus the finalize path (finalized x live edited x foreign finalizer); every case distinct, one real sync each + the live status edited behind the cache (cached status already equal to the desired one); discovery lists a scale subresource after status for the parent kind; plus rolling parents: hook status shape(9: none, flat, nested, other conditions, an own Updated condition first / in the middle / alone, empty list) x rollout phase(4: on latest, progressing, waiting, completed) x method(2) x generateSelector(2), judged sync + repeat: stored status = hook status of the latest revision with only the Updated condition replaced/appended + observedGeneration, no write when nothing changes; plus a parent kind for which the server keeps no metadata.generation (observedGeneration 0); the generation-less parent kind is listed in discovery with its status subresource BEFORE the resource",
+             "plus the finalize path (finalized x live edited x foreign finalizer); every case distinct, one real sync each + the live status edited behind the cache (cached status already equal to the desired one); discovery lists a scale subresource after status for the parent kind; plus rolling parents: hook status shape(9: none, flat, nested, other conditions, an own Updated condition first / in the middle / alone, empty list) x rollout phase(4: on latest, progressing, waiting, completed) x method(2) x generateSelector(2), judged sync + repeat: stored status = hook status of the latest revision with only the Updated condition replaced/appended + observedGeneration, no write when nothing changes; plus a parent kind for which the server keeps no metadata.generation (observedGeneration 0); the generation-less parent kind is listed in discovery with its status subresource BEFORE the resource; the small status unit also runs with a cluster-scoped parent",
         units=[
             dict(pkg=COMPOSITE, test="TestVerifC11", shards=dict(quick=8, thorough=16), budget=dict(quick=300, thorough=900)),
             dict(pkg=COMPOSITE, test="TestVerifC11Roll", shards=dict(quick=2, thorough=2), budget=dict(quick=300, thorough=600)),
@@ -185,7 +185,7 @@ CHECKS = {
     "C02": dict(
         level="model_checking",
         rule="part 1: a rich composite sync (create, in-place update, recreate, delete undesired, adopt, release; desired names occupied by a foreign-owned object and by a non-matching orphan; same-named look-alikes in the other namespace) under dynamic and server-side apply x every request boundary (0 = before the sync: stale cache) x environment action (delete, delete+recreate, foreign controller, clear owners, relabel) x target object(8), then a second sync on the partly stale caches (thorough: every PAIR of environment actions, ~410 000 cases, from a restored snapshot); bystanders include objects that list the parent as a plain, non-controller owner; the child to be created carries a hook-provided plain owner reference to the parent; "
-             "part 2: two parents with overlapping selectors syncing concurrently, all interleavings at API-request granularity with <= 2 (thorough 3) preemptions; part 3: the decorator counterpart (attachments controlled by the target AND carrying the decorator's marker; environment action 'other decorator's marker'); every store-changing request is judged against its logged pre-state; the acting parent's selector has a history (it also selected the bystander orphans' label while the children were first created and was narrowed before the judged sync); boundaries are enumerated by position AND by request identity (every environment action on the target of a request just before that request, whatever its position in the run); actions include a non-matching namesake replacing the object",
+             "part 2: two parents with overlapping selectors syncing concurrently, all interleavings at API-request granularity with <= 2 (thorough 3) preemptions; part 3: the decorator counterpart (attachments controlled by the target AND carrying the decorator's marker; environment action 'other decorator's marker'); every store-changing request is judged against its logged pre-state; the acting parent's selector has a history (it also selected the bystander orphans' label while the children were first created and was narrowed before the judged sync); boundaries are enumerated by position AND by request identity (every environment action on the target of a request just before that request, whatever its position in the run); actions include a non-matching namesake replacing the object; the hook also desires one child in another namespace (born with the controller reference)",
         units=[
             dict(pkg=COMPOSITE, test="TestVerifC02", shards=dict(quick=8, thorough=16), budget=dict(quick=600, thorough=3000)),
             dict(pkg=DECORATOR, test="TestVerifC02", shards=dict(quick=4, thorough=8), budget=dict(quick=600, thorough=1800)),
@@ -196,7 +196,7 @@ CHECKS = {
         level="model_checking",
         rule="(a) rollout histories (bring-up, two template edits -> three live revisions, delete -> finalize) x revision field paths (default, spec.template, spec.template.ver) x customize x finalize x dynamic/server-side apply/dynamic with log verbosity 10 (code behind V(n).Enabled() guards) x a 500 injected at every single request position of the history: cache fingerprint (pointer + content) around every sync and 'the hook was sent what the server delivered'; "
              "(a2) the decorator counterpart: decorate, edit, unselect/delete with finalize x customize x InPlace/Recreate x log verbosity x a 500 at every request position; (b) two workers syncing distinct rolling parents that share every informer, the customize cache and the SSA memo: all interleavings at API-request/hook granularity with <= 2 (thorough 3) preemptions, outcome (store + hook-request multiset) must equal a serial order's; "
-             "(c) supplementary, outside the family: the same bodies free-running under the race detector (60 / 300 repetitions x 4 rounds x 3 concurrent syncs with parallel per-revision hook calls); every request of the history (by request identity) also fails with 429, server timeout, transport timeout (thorough: 403); the race pass ends with a round in which every per-revision hook call fails",
+             "(c) supplementary, outside the family: the same bodies free-running under the race detector (60 / 300 repetitions x 4 rounds x 3 concurrent syncs with parallel per-revision hook calls); every request of the history (by request identity) also fails with 429, server timeout, transport timeout (thorough: 403); the race pass ends with a round in which every per-revision hook call fails; the customize answer also selects a cluster-scoped related object by name",
         units=[
             dict(pkg=COMPOSITE, test="TestVerifC17", shards=dict(quick=8, thorough=16), budget=dict(quick=600, thorough=1800)),
             dict(pkg=DECORATOR, test="TestVerifC17", shards=dict(quick=2, thorough=4), budget=dict(quick=600, thorough=1800)),
@@ -208,7 +208,7 @@ CHECKS = {
     "C18": dict(
         level="model_checking",
         rule="all enabled operation sequences up to length 5 (thorough 7; 3 subscribers / 2 resources: one less) (part 1) over subscribe, subscribe to an undiscovered resource, addHandler, addHandler with own resync period, removeHandlers, close (remove+close as production does), object add/update/delete, tick of a handler's own resync timer; "
-             "after every operation the real factory/wrapper is compared with the reference model: refcount, informer running iff subscribed, LIST per incarnation, watch streams open, per-handler event sequence (add-time replay, later events, silence after removal)",
+             "after every operation the real factory/wrapper is compared with the reference model: refcount, informer running iff subscribed, LIST per incarnation, watch streams open, per-handler event sequence (add-time replay, later events, silence after removal); one configuration of the sequence search uses a cluster-scoped resource",
         rewrite_sync=True,
         units=[
             dict(pkg=INFORMER, test="TestVerifC18", shards=dict(quick=16, thorough=16), budget=dict(quick=600, thorough=3000)),
